@@ -62,6 +62,8 @@ func (p param) coreValue() M {
 		return M{"t": "num", "x": "1.5"}
 	case p.C.Shape == "prim" && p.Ty == "dt":
 		return M{"t": "time", "x": "2021-06-07T08:09:10Z"}
+	case p.C.Shape == "prim" && p.Ty == "date":
+		return M{"t": "time", "x": "2021-06-07T00:00:00Z"}
 	case p.C.Shape == "prim":
 		return strOf("k")
 	case p.C.Shape == "arr":
@@ -78,6 +80,8 @@ func (p param) schema() M {
 		return M{"type": "number"}
 	case p.C.Shape == "prim" && p.Ty == "dt":
 		return M{"type": "string", "format": "date-time"}
+	case p.C.Shape == "prim" && p.Ty == "date":
+		return M{"type": "string", "format": "date"}
 	case p.C.Shape == "prim":
 		s := M{"type": "string"}
 		if p.group == "dflt" {
@@ -418,6 +422,17 @@ func Prepare(r *core.Run, extra, race bool) (*Prepared, error) {
 				dom = append(dom, absent)
 			}
 			for _, v := range dom {
+				if p.Ty == "date" && v["t"] == "time" {
+					// the same calendar day handed over in three zones: UTC, east of Greenwich at
+					// midnight (the instant is on the previous UTC day), west in the evening (next)
+					for _, zone := range []string{"", "+02:00", "-08:00"} {
+						sp := M{"t": "time", "x": v["x"], "zone": zone}
+						ps, ks := paramsOf(o, j, sp)
+						calls = append(calls, dcall{Method: o.method, Params: ps, Keys: ks})
+						metas = append(metas, meta{kind: "param", op: o, vary: j, sent: v, descr: "zone " + zone})
+					}
+					continue
+				}
 				ps, ks := paramsOf(o, j, v)
 				calls = append(calls, dcall{Method: o.method, Params: ps, Keys: ks})
 				metas = append(metas, meta{kind: "param", op: o, vary: j, sent: v})
